@@ -430,6 +430,27 @@ func Block(desc string, cond func() bool) {
 	}
 }
 
+// Settle waits until no other thread can run (every other thread is finished or blocked). Harness
+// code uses it to let background goroutines reach their next wait before it looks at them.
+func Settle(desc string) {
+	s := S
+	if s == nil {
+		return
+	}
+	me := s.cur
+	s.point(desc, nil, func() bool {
+		for _, t := range s.threads {
+			if t == me || t.done {
+				continue
+			}
+			if !t.started || t.enabled == nil || t.enabled() {
+				return false
+			}
+		}
+		return true
+	}, time.Time{})
+}
+
 // BlockUntil is Block with a virtual-time deadline hint for auto-advance.
 func BlockUntil(desc string, when time.Time) {
 	if s := S; s != nil {
